@@ -250,6 +250,13 @@ func parseLine(line string, document *Document, family *FamilyNode) (Node, int, 
 	// Tag (required).
 	tag := TagFromString(parts[3])
 
+	// Husband, wife and child nodes belong to a family. Without one the line
+	// cannot be represented so it is reported rather than causing a panic.
+	if family == nil &&
+		(tag.Is(TagHusband) || tag.Is(TagWife) || tag.Is(TagChild)) {
+		return nil, 0, fmt.Errorf("%s outside of a family: %s", tag.Tag(), line)
+	}
+
 	// Value (optional).
 	value := parts[4]
 
